@@ -572,13 +572,21 @@ class Name:
         of reducing the message size).
         """
         name = self.name
+        if len(name.rstrip(b".")) > 253:
+            # RFC 1035 section 2.3.4: 255 octets or less on the wire (each
+            # label costs one more octet than its length, plus the root).
+            raise ValueError("DNS name too long: %d bytes" % (len(name),))
         while name:
             if compDict is not None:
                 if name in compDict:
                     strio.write(struct.pack("!H", 0xC000 | compDict[name]))
                     return
                 else:
-                    compDict[name] = strio.tell() + Message.headerSize
+                    offset = strio.tell() + Message.headerSize
+                    if offset < 0x4000:
+                        # A compression pointer holds a 14 bit offset (RFC
+                        # 1035 section 4.1.4); later names cannot be targets.
+                        compDict[name] = offset
             ind = name.find(b".")
             if ind > 0:
                 label, name = name[:ind], name[ind + 1 :]
@@ -587,6 +595,10 @@ class Name:
                 label = name
                 name = None
                 ind = len(label)
+            if ind > 63:
+                raise ValueError(
+                    "DNS label too long: %d bytes (the limit is 63)" % (ind,)
+                )
             strio.write(_ord2bytes(ind))
             strio.write(label)
         strio.write(b"\x00")
